@@ -315,12 +315,12 @@ def ContentS (cfg : EncCfg) (pf : Profile) (dm om : Bool) (t : Ty) (v : Val) (su
         (emptyC om t v = false → cs ≠ []))
 
 theorem item_of_contentS (cfg : EncCfg) (pf : Profile) (dm om : Bool) (mc : Nat) (f : Bool)
-    (t : Ty) (hreg : t.reg cfg dm = true) (hwf : t.WF = true) (v : Val) (sub : Bytes)
+    (t : Ty) (hreg : t.reg true cfg dm = true) (hwf : t.WF = true) (v : Val) (sub : Bytes)
     (ic : Bool) (b : Bytes) (hE : f = true → emptyC om t v = false)
     (hc : ContentS cfg pf dm om t v sub ic)
     (h : finishItem cfg { defMode := dm, maxChunk := mc, ifNotEmpty := f } t (.ok (sub, ic)) = .ok b) :
     GoodS pf dm t v b := by
-  have hna := reg_not_any cfg dm t hreg
+  have hna := reg_not_any true cfg dm t hreg
   simp only [finishItem] at h
   cases htags : t.tags with
   | nil =>
@@ -354,7 +354,7 @@ theorem item_of_contentS (cfg : EncCfg) (pf : Profile) (dm om : Bool) (mc : Nat)
     have hts : ∀ tg ∈ ts, tg.constructed = true := by
       intro tg hm
       exact tags_tail_constructed t tg (by rw [htags]; simpa using hm)
-    have hok0 : okTag t0 := tags_ok cfg dm t hreg hwf t0 (by rw [htags]; simp)
+    have hok0 : okTag t0 := tags_ok true cfg dm t hreg hwf t0 (by rw [htags]; simp)
     have hG : ∀ x, BerG pf t.base v true (ts.reverse ++ [t0]) x → IsBer pf t v x := by
       intro x hx
       exact isBer_of_G pf t v x hna (by rw [htags]; simpa using hx)
@@ -365,7 +365,7 @@ theorem item_of_contentS (cfg : EncCfg) (pf : Profile) (dm om : Bool) (mc : Nat)
       rw [htags] at ht'
       simp only [List.cons.injEq] at ht'
       obtain ⟨rfl, rfl⟩ := ht'
-      rw [wrapTags_prim _ _ _ _ _ hts (reg_hok cfg dm t hreg t0 ts htags)] at h
+      rw [wrapTags_prim _ _ _ _ _ hts (reg_hok true cfg dm t hreg t0 ts htags)] at h
       cases hy : primNode t0 sub with
       | error e => rw [hy] at h; simp [wrapAll, Except.map] at h
       | ok y =>
@@ -629,11 +629,11 @@ include hR
 mutual
 theorem rt_contentS : ∀ (t : Ty) (v : Val) (sub : Bytes) (ic : Bool) (f : Bool),
     (f = true → cfg.seqOmitEmpty = true) →
-    t.reg cfg dm = true → t.WF = true → HasType t v = true → noE3 cfg.seqOmitEmpty t v = true →
+    t.reg true cfg dm = true → t.WF = true → HasType t v = true → noE3 cfg.seqOmitEmpty t v = true →
     (f = true → emptyC cfg.seqOmitEmpty t v = false) →
     encValue cfg (mkO dm mc f) t v = .ok (sub, ic) → ContentS cfg pf dm cfg.seqOmitEmpty t v sub ic
   | .tagged e c n t, v, sub, ic, f, hf, hr, hw, ht, hn, hE, h => by
-      have hr' : t.reg cfg dm = true := by
+      have hr' : t.reg true cfg dm = true := by
         simp only [Ty.reg, Bool.and_eq_true] at hr; exact hr.2
       have hw' : t.WF = true := by
         cases e <;> simp_all [Ty.WF]
@@ -679,7 +679,35 @@ theorem rt_contentS : ∀ (t : Ty) (v : Val) (sub : Bytes) (ic : Bool) (f : Bool
             simp only [Except.ok.injEq, Prod.mk.injEq] at h
             obtain ⟨rfl, rfl⟩ := h
             exact contentS_prim (fun hd tg => .oid hc)
-      | real => simp [Ty.reg] at hr
+      | real =>
+        cases v <;> simp [HasType] at ht
+        case real r =>
+          cases r with
+          | pinf =>
+            simp only [encValue, Except.ok.injEq, Prod.mk.injEq] at h
+            obtain ⟨rfl, rfl⟩ := h
+            exact contentS_prim (fun hd tg => .real (by simp [realContent]))
+          | minf =>
+            simp only [encValue, Except.ok.injEq, Prod.mk.injEq] at h
+            obtain ⟨rfl, rfl⟩ := h
+            exact contentS_prim (fun hd tg => .real (by simp [realContent]))
+          | fin m b e =>
+            simp only [encValue] at h
+            by_cases hm : m = 0
+            · simp only [hm, if_true, Except.ok.injEq, Prod.mk.injEq] at h
+              obtain ⟨rfl, rfl⟩ := h
+              exact contentS_prim (fun hd tg => .real (by simp [realContent, hm]))
+            · simp only [hm, if_false] at h
+              by_cases hb : b = 2
+              · simp only [hb, if_true] at h
+                cases hc : realBinToContent m e with
+                | none => rw [hc] at h; simp at h
+                | some c =>
+                  rw [hc] at h
+                  simp only [Except.ok.injEq, Prod.mk.injEq] at h
+                  obtain ⟨rfl, rfl⟩ := h
+                  exact contentS_prim (fun hd tg => .real (by simp [realContent, hm, hb, hc]))
+              · simp [hb] at h
       | bitString =>
         cases v <;> simp [HasType] at ht
         case bits bs =>
@@ -925,7 +953,7 @@ theorem rt_contentS : ∀ (t : Ty) (v : Val) (sub : Bytes) (ic : Bool) (f : Bool
           · intro _; exact ⟨x, rfl, .choice hal⟩
 theorem rt_fieldsS : ∀ (fs : Fields) (vs : List Val) (b : Bytes) (f : Bool),
     (f = true → cfg.seqOmitEmpty = true) →
-    Fields.reg cfg dm fs = true → Fields.WF fs = true → HasFields fs vs = true →
+    Fields.reg true cfg dm fs = true → Fields.WF fs = true → HasFields fs vs = true →
     noE3F cfg.seqOmitEmpty fs vs = true →
     encFields cfg (mkO dm mc f) fs vs = .ok b →
     ∃ cs, b = serList cs ∧ (∀ c ∈ cs, ChildOk dm c) ∧ IsFields pf fs vs cs ∧
@@ -1006,7 +1034,7 @@ theorem rt_fieldsS : ∀ (fs : Fields) (vs : List Val) (b : Bytes) (f : Bool),
             · exact h2 c hc
 theorem rt_setS : ∀ (fs : Fields) (vs : List Val) (ms : List (TagSet × Bytes)) (ord : SetOrder) (f : Bool),
     cfg.seqOmitEmpty = true →
-    Fields.reg cfg dm fs = true → Fields.WF fs = true → HasFields fs vs = true →
+    Fields.reg true cfg dm fs = true → Fields.WF fs = true → HasFields fs vs = true →
     noE3F cfg.seqOmitEmpty fs vs = true →
     encSetMembers cfg (mkO dm mc f) ord fs vs = .ok ms →
     ∃ ps : List (TagSet × TLV), ms = ps.map (fun p => (p.1, p.2.ser)) ∧ (∀ p ∈ ps, ChildOk dm p.2) ∧
@@ -1069,7 +1097,7 @@ theorem rt_setS : ∀ (fs : Fields) (vs : List Val) (ms : List (TagSet × Bytes)
             · exact h2 p hp
 theorem rt_altS : ∀ (fs : Fields) (i : Nat) (v : Val) (b : Bytes) (f : Bool),
     (f = true → cfg.seqOmitEmpty = true) →
-    Fields.reg cfg dm fs = true → Fields.WF fs = true → HasAlt fs i v = true →
+    Fields.reg true cfg dm fs = true → Fields.WF fs = true → HasAlt fs i v = true →
     noE3Alt cfg.seqOmitEmpty fs i v = true → (f = true → emptyAlt cfg.seqOmitEmpty fs i v = false) →
     encAlt cfg (mkO dm mc f) fs i v = .ok b →
     ∃ x : TLV, b = x.ser ∧ x.WF ∧ NotEoo x.ser ∧ (dm = true → x.allDef = true) ∧ IsAlt pf fs i v x
@@ -1102,7 +1130,7 @@ end
     serialisation of one well-formed element that the rules (under the profile) allow as an
     encoding of that value -/
 theorem encode_spec (f : Bool) (hf : f = false) (t : Ty) (v : Val) (b : Bytes)
-    (hreg : t.reg cfg dm = true) (hwf : t.WF = true) (hty : HasType t v = true)
+    (hreg : t.reg true cfg dm = true) (hwf : t.WF = true) (hty : HasType t v = true)
     (hn : noE3 cfg.seqOmitEmpty t v = true)
     (h : finishItem cfg (mkO dm mc f) t (encValue cfg (mkO dm mc f) t v) = .ok b) :
     GoodS pf dm t v b := by
